@@ -18,10 +18,11 @@ pub fn corr(run: &mut Run) {
     let n = run.tier.scale(90, 900);
     // the heavy protocol families are visited deterministically first: each join type, sort
     let jts = [JoinType::Inner, JoinType::Left, JoinType::Union, JoinType::Full];
-    let n_heavy = run.tier.scale(6, 40);
+    let n_dir = run.tier.scale(8, 48);
+    let n_heavy = n_dir + run.tier.scale(20, 120);
     for it in 0..(n + n_heavy) {
         let heavy = it % 10 == 0;
-        let fam = match catch(|| if it < n_heavy { if it % 6 < 4 { join_family(&mut rng, &jts[it % 6..it % 6 + 1]) } else { sort_family(&mut rng) } } else { gen_family(&mut rng, heavy) }) {
+        let fam = match catch(|| if it < n_heavy { match it % 8 { _ if it >= n_dir => bilinear_family(&mut rng), 0..=3 => join_family(&mut rng, &jts[it % 8..it % 8 + 1]), 4 | 5 => sort_family(&mut rng), _ => assoc_iterate_family(&mut rng) } } else { gen_family(&mut rng, heavy) }) {
             Ok(Ok(f)) => f,
             _ => {
                 run.count("gen:failed");
@@ -39,9 +40,13 @@ pub fn corr(run: &mut Run) {
                 continue;
             }
         };
-        let ins: Vec<IOStatus> = fam.in_types.iter().map(|_| gen_status(&mut rng)).collect();
+        let mut ins: Vec<IOStatus> = fam.in_types.iter().map(|_| gen_status(&mut rng)).collect();
+        if fam.name == "bilinear" {
+            let pr = IOStatus::Party(rng.below(3));
+            ins = match rng.below(4) { 0 => vec![IOStatus::Public, pr], 1 => vec![pr, IOStatus::Public], 2 => vec![pr, IOStatus::Party(rng.below(3))], _ => vec![IOStatus::Public, IOStatus::Shared] };
+        }
         let outs = gen_outputs(&mut rng);
-        let mode = rng.below(3) as u8;
+        let mode = if fam.name == "assoc_iterate" { 1 + rng.below(2) as u8 } else { rng.below(3) as u8 };
         let cfg = config_name(&ins, &outs, mode);
         let cc = match catch(|| compile(&fam.ctx, &ins, &outs, mode)) {
             Ok(Ok(c)) => c,
@@ -86,7 +91,7 @@ pub fn gen(run: &mut Run, out_dir: &str) {
     // so the corpus is the set of program/config pairs it is known to prove on the unchanged tree.
     let mut rng = Rng::new(0xC02, "C02/gen");
     let n_graphs = run.tier.scale(24, 80);
-    let max_nodes = run.tier.scale(130, 420);
+    let max_nodes = run.tier.scale(700, 3000);
     let chunk = 4;
     let mut obligations = vec![];
     let mut files: Vec<String> = vec![];
@@ -126,10 +131,10 @@ pub fn gen(run: &mut Run, out_dir: &str) {
         writeln!(cur, "def {}_inStat : Nat → HT := fun i => statusHT ([{}].getD i 3)", name, ins.iter().map(|s| status_code(s).to_string()).collect::<Vec<_>>().join(", ")).unwrap();
         writeln!(cur, "def {}_owner : Nat → Nat := fun r => [{}].getD r 0", name, ex.owners.iter().map(|o| o.to_string()).collect::<Vec<_>>().join(", ")).unwrap();
         if outs.is_empty() {
-            writeln!(cur, "theorem {}_ok : okShared {}_inStat {}_owner {} {} = true := by decide +kernel\n", name, name, name, name, ex.out).unwrap();
+            writeln!(cur, "theorem {}_ok : okSharedT {}_inStat {}_owner {} {} = true := by decide +kernel\n", name, name, name, name, ex.out).unwrap();
         } else {
             let has = |p: u64| outs.iter().any(|o| *o == IOStatus::Party(p));
-            writeln!(cur, "theorem {}_ok : okRevealed {}_inStat {}_owner {} {} ⟨{}, {}, {}⟩ = true := by decide +kernel\n", name, name, name, name, ex.out, has(0), has(1), has(2)).unwrap();
+            writeln!(cur, "theorem {}_ok : okRevealedT {}_inStat {}_owner {} {} ⟨{}, {}, {}⟩ = true := by decide +kernel\n", name, name, name, name, ex.out, has(0), has(1), has(2)).unwrap();
         }
         obligations.push(serde_json::json!({"name": format!("CCV.Generated.C02.{}_ok", name),
             "says": format!("holder analysis accepts the compiled graph of {} [{}] {} ({} nodes, {} sends)", fam.name, fam.descr, cfg, ex.n_nodes, ex.n_sends)}));
